@@ -26,7 +26,7 @@ func init() {
 		Expl: "Decides, over the state tables, the SSA of the swap service and of package peersync: " +
 			"(R1) in every maker table the success edge of every state that builds the CSV spend enters a state whose action tree records swap.PeerNodeId with Policy.AddToSuspiciousPeerList, unconditionally (the call lies on every path of its action), and such a state has no other in-edge; " +
 			"(R2) every way a swap with a peer can start passes the suspicious test on that very peer, with the failing edge refusing: (a) in tables of the responder role every first state from which an invoice/payment/funding state is reachable delegates to its inner action only under `!IsPeerSuspicious(swap.PeerNodeId)`, the other edge returns only the failure event and the failure edge of the table reaches no such state; PeerNodeId is written only from a constructor parameter; (b) every creation site of an initiator-role machine registers it (lockSwap) and starts it (SendEvent) only under `!IsPeerSuspicious(peer)` for the peer the machine is built for; (c) in peersync every call that sends a capability message (through the sender function value, the sender method, or Lightning.SendCustomMessage directly) and every SavePeerState of a peer that received a capability from a message is cut off from the entry by the edges `guard.Suspicious(same peer) == false` / `guard == nil`; " +
-			"(R3) every implementation of PeerGuard.Suspicious answers with Policy.IsPeerSuspicious of its argument (false only without a policy), and both daemons hand the one policy object created from the policy file to the swap services and to peersync, which builds its guard from it; IsPeerSuspicious reads the list whose ini key the quarantine writes, and every rewrite of the policy file issued by a *Policy method deletes lines matched on an ini key (a rewrite handed only the bare pubkey with no key known to the helper would delete the peer's suspicious_peers line as a side effect; that the helper compares whole lines is C25.R3). Tests are recognised directly, through in-module helpers whose tested outcome implies them (bool or error result), through short-circuit values kept in locals, and in every caller of an unexported function; uninterpreted shapes end as undecided. Quantified over all tables, states, edges, creation sites and send/store sites, i.e. over all later requests, initiations and peer-sync messages.",
+			"(R3) every implementation of PeerGuard.Suspicious answers with Policy.IsPeerSuspicious of its argument (false only without a policy), and both daemons hand the one policy object created from the policy file to the swap services and to peersync, which builds its guard from it; the guard constructor stores the shared policy pointer it is given (the address of a local copy or a freshly allocated policy is a snapshot: violation); IsPeerSuspicious reads the list whose ini key the quarantine writes and, when it uses an order-dependent lookup (slices.BinarySearch*, sort.Search*, sort.Find), every publication point of a policy object in package policy (exported constructors, whole-object overwrite) sorts that list after the ini parser filled it, and every rewrite of the policy file issued by a *Policy method deletes lines matched on an ini key (a rewrite handed only the bare pubkey with no key known to the helper would delete the peer's suspicious_peers line as a side effect; that the helper compares whole lines is C25.R3). Tests are recognised directly, through in-module helpers whose tested outcome implies them (bool or error result), through short-circuit values kept in locals, and in every caller of an unexported function; uninterpreted shapes end as undecided. Quantified over all tables, states, edges, creation sites and send/store sites, i.e. over all later requests, initiations and peer-sync messages.",
 		NotD: "That the add reaches the file (C25.R2) when the node runs without a policy file path: AddToSuspiciousPeerList then returns ErrNoPolicyFile, which the action logs and ignores (info under R1). Swaps already running with the peer when it is quarantined. Peer identity spoofing below the transport. A crash between the CSV spend and the terminal state (C15/C16).",
 		Run:  runC26,
 	})
@@ -1805,23 +1805,102 @@ func c26r3(c *an.Check) {
 		}
 	}
 	c.AtLeast("C26.R3", "NewPeerGuard call sites in peersync", nG, 1)
-	// the constructor keeps the policy
-	kept := false
+	// the constructor keeps the policy: every store into a *policy.Policy-typed field of the
+	// guard object it builds is classified by where the stored pointer comes from
+	kept, snapshot, unclear := 0, "", ""
 	for _, b := range newPG.Blocks {
 		for _, in := range b.Instrs {
-			if al, ok := in.(*ssa.Alloc); ok {
-				if v, ok := an.CompositeFieldValue(al, "policy"); ok && v == ssa.Value(newPG.Params[0]) {
-					kept = true
+			st, ok := in.(*ssa.Store)
+			if !ok {
+				continue
+			}
+			fa, ok := st.Addr.(*ssa.FieldAddr)
+			if !ok || !isPolPtr(st.Val.Type()) {
+				continue
+			}
+			if _, onNew := fa.X.(*ssa.Alloc); !onNew {
+				continue
+			}
+			v := c26strip(st.Val)
+			switch y := v.(type) {
+			case *ssa.Parameter:
+				if isPolPtr(y.Type()) {
+					kept++
+				} else {
+					unclear = w.Term(v)
 				}
+			case *ssa.Alloc:
+				// the address of a local / new(Policy): a private copy
+				snapshot = "the address of a policy value local to the constructor (" + c26allocOrigin(w, y) + ")"
+			case *ssa.Const:
+				if y.Value != nil {
+					unclear = w.Term(v)
+				}
+			case *ssa.Call, *ssa.Extract:
+				call, _ := y.(*ssa.Call)
+				if ex, isEx := y.(*ssa.Extract); isEx {
+					call, _ = ex.Tuple.(*ssa.Call)
+				}
+				if call != nil && c26returnsFresh(w, w.Info(call).Static, 0) {
+					snapshot = "a freshly allocated policy returned by " + w.Term(v)
+				} else {
+					unclear = w.Term(v)
+				}
+			default:
+				unclear = w.Term(v)
 			}
 		}
 	}
-	if kept {
-		c.OK("C26.R3", w.FuncName(newPG)+" keeps policy", w.Pos(newPG.Pos()), "the guard stores the policy parameter")
-	} else {
+	kcons := w.FuncName(newPG) + " keeps policy"
+	switch {
+	case snapshot != "":
+		c.Bad("C26.R3", kcons, w.Pos(newPG.Pos()), "the guard keeps a snapshot of the policy, not the shared object: it stores "+snapshot+". Every reload overwrites the shared policy.Policy in place, so a peer quarantined at run time (or any later change of the suspicious list) is invisible to peer-sync, which keeps polling and answering it until the next restart")
+	case unclear != "":
+		c.Unknown("C26.R3", kcons, w.Pos(newPG.Pos()), "the guard stores "+unclear+" as its policy; cannot decide that it is the shared policy object handed to the constructor")
+	case kept > 0:
+		c.OK("C26.R3", kcons, w.Pos(newPG.Pos()), "the guard stores the policy parameter")
+	default:
 		// stored through a helper, an embedded struct, …: not interpreted
-		c.Unknown("C26.R3", w.FuncName(newPG)+" keeps policy", w.Pos(newPG.Pos()), "cannot see the guard constructor store its policy parameter in the guard's policy field")
+		c.Unknown("C26.R3", kcons, w.Pos(newPG.Pos()), "cannot see the guard constructor store its policy parameter in the guard's policy field")
 	}
+}
+
+// c26allocOrigin describes what is stored into a local.
+func c26allocOrigin(w *an.World, al *ssa.Alloc) string {
+	if al.Referrers() != nil {
+		for _, r := range *al.Referrers() {
+			if st, ok := r.(*ssa.Store); ok && st.Addr == ssa.Value(al) {
+				return "filled from " + w.Term(st.Val)
+			}
+		}
+	}
+	return "new object"
+}
+
+// c26returnsFresh: every non-nil pointer result of the in-module function is allocated in it.
+func c26returnsFresh(w *an.World, f *ssa.Function, depth int) bool {
+	if f == nil || !w.InModule(f) || f.Blocks == nil || depth > 2 {
+		return false
+	}
+	n := 0
+	for _, rc := range c26retCases(f, 0) {
+		switch y := c26strip(rc.val).(type) {
+		case *ssa.Alloc:
+			n++
+		case *ssa.Const:
+			if y.Value != nil {
+				return false
+			}
+		case *ssa.Call:
+			if !c26returnsFresh(w, w.Info(y).Static, depth+1) {
+				return false
+			}
+			n++
+		default:
+			return false
+		}
+	}
+	return n > 0
 }
 
 // c26listAgrees: (*Policy).IsPeerSuspicious answers membership of its argument in
@@ -1916,6 +1995,14 @@ func c26listAgrees(c *an.Check, polT *types.Named) {
 		}
 	}
 	want := "Policy." + field
+	// an order-dependent lookup needs the list sorted wherever a policy object is published
+	for _, ci := range an.Calls(is) {
+		n := w.Info(ci).Name
+		if an.HasPrefixAny(n, "func:slices.BinarySearch", "func:sort.Search", "func:sort.Find") {
+			c26sortedWherePublished(c, polT, is, field, strings.TrimPrefix(n, "func:"))
+			break
+		}
+	}
 	otherList := false
 	uninterpreted := false
 	for g := range got {
@@ -2146,4 +2233,219 @@ func c26quarantineLineKept(c *an.Check, polT *types.Named) {
 		}
 	}
 	c.AtLeast("C26.R3", "policy-file rewrites issued by *Policy methods", n, 1)
+}
+
+// c26sortedWherePublished: the predicate finds its argument with an order-dependent
+// lookup. That is membership only if the list is sorted in every policy object that
+// is published: the object handed out by an exported constructor of package policy
+// and the value copied over the live object by a whole-object overwrite. An object
+// that was filled by the ini parser and is published without a sort of that field
+// after the parse is a violation (file order is arbitrary).
+func c26sortedWherePublished(c *an.Check, polT *types.Named, pred *ssa.Function, field, lookup string) {
+	w := c.W
+	isPolPtr := func(t types.Type) bool {
+		p, ok := t.Underlying().(*types.Pointer)
+		return ok && types.Identical(p.Elem(), polT)
+	}
+	parses := func(f *ssa.Function) bool {
+		if f == nil || !w.InModule(f) || f.Blocks == nil {
+			return false
+		}
+		for _, e := range w.Summary(f).Effects {
+			if strings.HasSuffix(e.Name, "go-flags.IniParser).Parse") {
+				return true
+			}
+		}
+		return false
+	}
+	// sort calls on field `field` of object obj inside fn
+	sortsOf := func(fn *ssa.Function, obj ssa.Value) []ssa.Instruction {
+		var out []ssa.Instruction
+		for _, ci := range an.Calls(fn) {
+			n := w.Info(ci).Name
+			if !an.HasPrefixAny(n, "func:slices.Sort", "func:sort.Strings", "func:sort.Slice", "func:sort.Sort", "func:sort.Stable") || len(ci.Common().Args) == 0 {
+				continue
+			}
+			d := c26resolve(ci.Common().Args[0], nil, 0)
+			if len(d.chain) == 1 && d.chain[0] == "Policy."+field && c26strip(d.root) == c26strip(obj) {
+				out = append(out, ci)
+			}
+		}
+		return out
+	}
+	var sortedResult func(f *ssa.Function, depth int) (string, string)
+	// judge: object obj (a *Policy value in fn) is published at instruction pub
+	judge := func(fn *ssa.Function, obj ssa.Value, pub ssa.Instruction, depth int) (string, string) {
+		obj = c26strip(obj)
+		if k, isC := obj.(*ssa.Const); isC && k.Value == nil {
+			return "ok", "nil"
+		}
+		if an.MustPassInstr(pub, sortsOf(fn, obj)) {
+			return "ok", "sorted in " + w.FuncName(fn)
+		}
+		var call *ssa.Call
+		switch y := obj.(type) {
+		case *ssa.Call:
+			call = y
+		case *ssa.Extract:
+			call, _ = y.Tuple.(*ssa.Call)
+		case *ssa.Alloc:
+			// a literal: the list is whatever is stored; an empty/one-element literal is sorted
+			if v, ok := an.CompositeFieldValue(y, field); ok {
+				if c26trivialList(w, v) {
+					return "ok", "literal with at most one element"
+				}
+				return "unknown", "the list of the literal built in " + w.FuncName(fn) + " is " + w.Term(v)
+			}
+			if parses(fn) {
+				return "bad", w.FuncName(fn) + " fills the object with the ini parser and publishes it without sorting Policy." + field
+			}
+			return "ok", "literal that leaves the list empty"
+		}
+		if call == nil {
+			return "unknown", "origin of the published object in " + w.FuncName(fn) + " not understood: " + w.Term(obj)
+		}
+		// the object is handed to the ini parser here (flags.NewParser(obj, …).Parse(r)) and not sorted afterwards
+		if parses(fn) && !parses(w.Info(call).Static) {
+			escapes := false
+			if obj.Referrers() != nil {
+				for _, r := range *obj.Referrers() {
+					switch y := r.(type) {
+					case ssa.CallInstruction:
+						escapes = true
+					case *ssa.MakeInterface:
+						if y.Referrers() != nil {
+							for _, r2 := range *y.Referrers() {
+								if _, ok := r2.(ssa.CallInstruction); ok {
+									escapes = true
+								}
+							}
+						}
+					}
+				}
+			}
+			if escapes {
+				return "bad", w.FuncName(fn) + " fills the object with the ini parser and publishes it without sorting Policy." + field
+			}
+		}
+		g := w.Info(call).Static
+		if g == nil || !w.InModule(g) || depth > 2 {
+			return "unknown", "the published object comes from " + w.Term(obj)
+		}
+		v, why := sortedResult(g, depth+1)
+		if v == "bad" {
+			return "bad", w.FuncName(fn) + " publishes the object returned by " + w.FuncName(g) + " without sorting Policy." + field + " (" + why + ")"
+		}
+		return v, why
+	}
+	sortedResult = func(f *ssa.Function, depth int) (string, string) {
+		res, why := "ok", "every result of "+w.FuncName(f)+" is sorted"
+		for _, r := range c26Returns(f) {
+			if len(r.Results) == 0 || !isPolPtr(r.Results[0].Type()) {
+				continue
+			}
+			for _, rc := range c26expandPhi(c26RetVal(r, 0), r.Block(), nil, 0) {
+				v, y := judge(f, rc.val, r, depth)
+				if v == "bad" {
+					return "bad", y
+				}
+				if v != "ok" {
+					res, why = "unknown", y
+				}
+			}
+		}
+		return res, why
+	}
+	n := 0
+	for _, fn := range prodFuncs(w) {
+		if w.FnRel(fn) != "policy" || fn.Parent() != nil {
+			continue
+		}
+		cons := w.FuncName(fn) + " publishes Policy." + field + " sorted"
+		report := func(v, why, pos string) {
+			n++
+			switch v {
+			case "ok":
+				c.OK("C26.R3", cons, pos, "sorted before publication: "+why)
+			case "bad":
+				c.Bad("C26.R3", cons, pos, fmt.Sprintf("%s decides with %s, which needs Policy.%s in ascending order, but %s: the list is in file order, the search misses listed peers and a quarantined peer is treated as clean (two recorded peers not in ascending order suffice)", w.FuncName(pred), lookup, field, why))
+			default:
+				c.Unknown("C26.R3", cons, pos, fmt.Sprintf("%s decides with %s, which needs Policy.%s sorted; cannot decide for this publication: %s", w.FuncName(pred), lookup, field, why))
+			}
+		}
+		// exported constructors
+		if c26exported(fn) && fn.Signature.Recv() == nil && fn.Signature.Results().Len() > 0 && isPolPtr(fn.Signature.Results().At(0).Type()) {
+			v, why := sortedResult(fn, 0)
+			report(v, why, w.Pos(fn.Pos()))
+		}
+		// whole-object overwrite of a live object
+		for _, b := range fn.Blocks {
+			for _, in := range b.Instrs {
+				st, ok := in.(*ssa.Store)
+				if !ok || !isPolPtr(st.Addr.Type()) || !types.Identical(st.Val.Type(), polT) {
+					continue
+				}
+				if _, fresh := st.Addr.(*ssa.Alloc); fresh {
+					continue
+				}
+				ld, isLd := st.Val.(*ssa.UnOp)
+				if !isLd || ld.Op != token.MUL {
+					report("unknown", "overwrites the live object with "+w.Term(st.Val), w.Pos(st.Pos()))
+					continue
+				}
+				v, why := judge(fn, ld.X, st, 0)
+				report(v, why, w.Pos(st.Pos()))
+			}
+		}
+		// direct assignment of the list on a live object
+		for _, st := range w.FieldWriters("Policy." + field) {
+			if st.Parent() != fn {
+				continue
+			}
+			if fa, ok := st.Addr.(*ssa.FieldAddr); ok && isPolPtr(fa.X.Type()) {
+				if _, fresh := fa.X.(*ssa.Alloc); !fresh {
+					report("unknown", "assigns the list directly: "+w.Term(st.Val), w.Pos(st.Pos()))
+				}
+			}
+		}
+	}
+	c.AtLeast("C26.R3", "publication points of policy objects", n, 2)
+}
+
+// c26trivialList: nil, or a package variable initialised once with a literal of at most one element.
+func c26trivialList(w *an.World, v ssa.Value) bool {
+	v = c26strip(v)
+	if an.IsNilConst(v) {
+		return true
+	}
+	ld, ok := v.(*ssa.UnOp)
+	if !ok || ld.Op != token.MUL {
+		return false
+	}
+	g, ok := ld.X.(*ssa.Global)
+	if !ok {
+		return false
+	}
+	n, small := 0, false
+	for _, fn := range w.SrcFuncs(nil) {
+		for _, b := range fn.Blocks {
+			for _, in := range b.Instrs {
+				st, ok := in.(*ssa.Store)
+				if !ok || st.Addr != ssa.Value(g) {
+					continue
+				}
+				n++
+				if sl, ok := st.Val.(*ssa.Slice); ok {
+					if al, ok := sl.X.(*ssa.Alloc); ok {
+						if pt, ok := al.Type().Underlying().(*types.Pointer); ok {
+							if at, ok := pt.Elem().Underlying().(*types.Array); ok && at.Len() <= 1 {
+								small = true
+							}
+						}
+					}
+				}
+			}
+		}
+	}
+	return n == 1 && small
 }
